@@ -101,6 +101,12 @@ def t_call(c, ops, cp):
     return has(c, lambda n: n[0] == "call")
 
 
+def t_neg_or_not_literal(c, ops, cp):
+    from vf import ceval
+
+    return has(c, lambda n: n[0] == "un" and n[1] in ("-", "~") and ceval.is_const_expr(n[2]))
+
+
 def t_literal(c, ops, cp):
     return has(c, lambda n: n[0] == "num")
 
@@ -114,6 +120,7 @@ RULES = [
     Rule("return-does-not-leave", "value", "KF-return-does-not-leave", t_call, doc="a return statement does not leave the sub-routine: later statements still run and the last return executed determines the value"),
     Rule("return-via-u64", "value", "KF-return-via-u64", t_call, doc="the return value is zero-extended into the unsigned 64-bit ret_val and truncated to the return type by the caller, instead of being converted to the return type"),
     Rule("compound-src-precast", "value", "KF-compound-src-precast", t_compound_assign, doc="the right operand of a compound assignment is converted to the type of the target before the operation"),
+    Rule("unary-fold-unreduced", "value", "KF-unary-fold-unreduced", t_neg_or_not_literal, doc="a folded ~ or - of a constant keeps its mathematical value (not reduced to its type) when it is an operand of another fold"),
     Rule("neg-literal-signed", "value", "KF-neg-literal-signed", t_neg_literal, doc="the folded negation of a constant is typed signed (-1U becomes -1)"),
     Rule("const-cond-no-conversion", "value", "KF-const-cond-no-conversion", t_const_cond, doc="a ?: with a compile-time constant condition yields the live arm without converting it to the common type of both arms"),
     Rule("const-cond-dead-arm", "static", "KF-const-cond-dead-arm", t_const_cond, il_msg=r"^undeclared|^unset-local|identifier \\w+ is not|does not hold",
